@@ -140,6 +140,8 @@ class Scenario(apiworld.ApiWorld):
             self.call(self.at.check_for_updates, "check_for_updates")
         elif op == "failw":
             self.net.live()[-1].fail_after = 0          # the next write on the live connection fails
+        elif op == "stall":
+            self.net.live()[-1].pause()                 # the console's window closes: writers park in drain()
         elif op == "shutdown":
             self.shutdown_state = "called"
 
@@ -190,7 +192,8 @@ class Scenario(apiworld.ApiWorld):
     def residual(self):
         """Tasks and timers of the client that are still scheduled (drivers excluded)."""
         drivers = {self.init_task, getattr(self, "sd_task", None)}
-        tasks = [t for t in asyncio.all_tasks(self.loop) if t not in drivers and not t.done()]
+        tasks = [t for t in asyncio.all_tasks(self.loop) if t not in drivers and not t.done()
+                 and not t.get_coro().__qualname__.startswith("ApiWorld.call")]      # the application's own calls
         timers = []
         for h in self.loop._scheduled:
             if h._cancelled:
@@ -213,6 +216,13 @@ class Scenario(apiworld.ApiWorld):
                 bad.append(v)
         # let shutdown() itself finish (the network stays as it is: pending connects stay pending)
         t_stop = L.time() + 10.0
+        L.settle()
+        chk()
+        if self.shutdown_state != "returned":
+            # a close() waiting for unsent bytes of a stalled stream: the statement is about what holds once shutdown()
+            # has returned, so the environment lets it - the stall ends now
+            for t in self.net.stalled():
+                t.resume()
         while self.shutdown_state != "returned" and (L.has_ready() or (L.next_deadline() is not None and L.next_deadline() <= t_stop)):
             if not L.has_ready():
                 L.advance_to(L.next_deadline())
@@ -322,6 +332,9 @@ def run(tier, seed, part=None):
         # reset_connection() is in flight when shutdown() lands
         "write-error-in-command": A + [["failw"], ["cmd"], ["accept"], ["answer"], ["answer"]],
         "write-error-in-handshake": [["accept"], ["answer"], ["failw"], ["answer"], ["accept"], ["answer"]],
+        # back-pressure: the heartbeat (t=300) and a command find the stream stalled and park in drain();
+        # shutdown() lands while they are parked (and must not wait for a stream that never drains)
+        "stalled-heartbeat-and-command": A + [["stall"], ["tick"], ["cmd"], ["tick"]],
     }
     cap = 50 if tier == "quick" else 900
     for gen in (4, 5):
